@@ -86,6 +86,7 @@ theorem model_buildFunctionPattern_regions (v : VersionInfo) (regs : List Region
     simp only [hv, if_true]
     exact ⟨_, rfl, rfl, fun _ _ => rfl⟩
 
+when_kernel Gzx.Gen.K01d.buildFunctionPattern in
 /-- per version of the regenerated table: the regenerated `buildFunctionPattern` makes the model's `SetRegion` calls, in
     order, none rejected -/
 def bfpAgrees (v : VersionInfo) : Bool :=
@@ -94,6 +95,9 @@ def bfpAgrees (v : VersionInfo) : Bool :=
   | some regs =>
     regs.all (Region.valid v.dimension) &&
     decide (Gen.K01d.buildFunctionPattern regOps (v.num : Int) (v.centers.map Int.ofNat) = .ok ((v.dimension, regs), false))
+
+/-- non-vacuity: the table has its 40 rows -/
+example : QRTables.versions.length = 40 := by decide +kernel
 
 when_kernel Gzx.Gen.K01d.buildFunctionPattern in
 theorem k_buildFunctionPattern_regions : QRTables.versions.all bfpAgrees = true := by decide +kernel
